@@ -35,6 +35,15 @@ type pipeCase struct {
 	ScratchDir string
 	Repo       string // working tree of the repository (the template files are read from it)
 	Templates  bool   // also record what the output templates see of the values they are executed on
+	Reassemble bool   // after everything else: add a nodal load to a slice node through the exported API and assemble again
+	Restage    int    // k > 0: number a second structure made of the sliced bars but the (k-1 mod n)-th (a construction stage)
+}
+
+type jAgain struct {
+	Panic    string
+	Pre      jPre
+	KEntries [][3]string
+	F        []string
 }
 
 type jNode struct {
@@ -107,6 +116,9 @@ type jPipeOut struct {
 	Nodes      []jNode
 	Bars       []jBar
 	Pre        []jPre // one per StructureModel call
+	Again      *jAgain // the system assembled a second time, after a nodal load was added to a slice node
+	Restaged   *jPre  // the structure without one bar, numbered again over the same sliced bars
+	Dropped    string // the bar left out of the restaged structure
 	// structure as seen after all preprocess calls (input mutated?)
 	BarsAfter  []jBar
 	KEntries   [][3]string // i, j, value
@@ -263,6 +275,25 @@ func runPipe(c pipeCase) (out jPipeOut) {
 	}
 	out.BarsAfter = dumpBars(str)
 
+	if c.Restage > 0 && len(pre.Elements()) > 1 {
+		var jp jPre
+		guard(&jp.Panic, func() {
+			els := pre.Elements()
+			drop := (c.Restage - 1) % len(els)
+			var remained []*preprocess.Element
+			for i, el := range els {
+				if i == drop {
+					out.Dropped = el.GetID()
+					continue
+				}
+				remained = append(remained, el)
+			}
+			stage := preprocess.MakeStructure(pre.Metadata, str.NodesById.Copy(), remained, c.Weight).AssignDof()
+			jp = dumpPre(stage)
+		})
+		out.Restaged = &jp
+	}
+
 	if c.ViaPre {
 		var jp jPre
 		guard(&jp.Panic, func() {
@@ -335,6 +366,29 @@ func runPipe(c pipeCase) (out jPipeOut) {
 				}
 			})
 		}
+	}
+	if c.Reassemble && (c.Assemble || c.Solve) && out.SysPanic == "" {
+		ag := &jAgain{}
+		guard(&ag.Panic, func() {
+			els := pre.Elements()
+			el := els[len(els)/2]
+			nodes := el.Nodes()
+			nodes[len(nodes)/2].AddLocalLeftLoad(3, -7, 11)
+			nodes[0].AddLocalRightLoad(-5, 2, 0)
+			ag.Pre = dumpPre(pre)
+			k, f := pre.MakeSystemOfEquations()
+			for i := 0; i < k.Rows(); i++ {
+				idx := k.NonZeroIndicesAtRow(i)
+				sort.Ints(idx)
+				for _, j := range idx {
+					ag.KEntries = append(ag.KEntries, [3]string{fmt.Sprint(i), fmt.Sprint(j), fs(k.Value(i, j))})
+				}
+			}
+			for i := 0; i < f.Length(); i++ {
+				ag.F = append(ag.F, fs(f.Value(i)))
+			}
+		})
+		out.Again = ag
 	}
 	return
 }
